@@ -571,8 +571,8 @@ RULES = [
     ("C09-R2", r2_readonly, 10),
     ("C09-R3", r3_no_other_channel, 14),
     ("C09-R4", r4_lifecycle, 30),
-    ("C09-R4b", r4b_shared_buffer_io, 6),
-    ("C09-R5", r5_serial_equals_worker, 10),
+    ("C09-R4b", r4b_shared_buffer_io, 8),
+    ("C09-R5", r5_serial_equals_worker, 14),
 ]
 LEVEL = "proof"
 TRUSTED = ["CPython ast", "verifier/c09_sim.py exact symbolic execution (heap of array objects, views, helper calls followed, pool = fork + initializer + one symbolic task)",
